@@ -1,0 +1,30 @@
+//go:build verif
+
+package crypto
+
+import "sync"
+
+// Verification harness only (C03): every key derived by DeriveSessionKey is
+// reported to an observer, so that the keys held by both ends of a live
+// tunnel can be compared whatever variable they end up in.
+
+var (
+	verifDerivedMu   sync.Mutex
+	verifDerivedHook func(sk *SessionKey, streamID uint64)
+)
+
+// VerifSetDerivedHook installs (or, with nil, removes) the observer.
+func VerifSetDerivedHook(f func(sk *SessionKey, streamID uint64)) {
+	verifDerivedMu.Lock()
+	defer verifDerivedMu.Unlock()
+	verifDerivedHook = f
+}
+
+func verifDerived(sk *SessionKey, streamID uint64) {
+	verifDerivedMu.Lock()
+	f := verifDerivedHook
+	verifDerivedMu.Unlock()
+	if f != nil {
+		f(sk, streamID)
+	}
+}
